@@ -18,9 +18,18 @@ import (
 	"verif/harness/sim"
 )
 
+// one recorder for the package: TestC20 (in-process clusters) and TestC20Proc (real server processes)
+var shared *mon.Recorder
+
+func TestMain(m *testing.M) {
+	shared = mon.Open("C20")
+	code := m.Run()
+	shared.Close()
+	os.Exit(code)
+}
+
 func TestC20(t *testing.T) {
-	rec := mon.Open("C20")
-	defer rec.Finish(t)
+	rec := shared
 	n := rec.N(16, 200)
 	if only := os.Getenv("VERIF_CASE"); only != "" {
 		var c int
